@@ -90,30 +90,7 @@ def classify(facts, g, bb, t):
     return None, "single read whose count does not become this function's own Read result: a short read would be treated as a full one"
 
 
-def lift_site(facts, g, bb):
-    """A read inside a private helper is judged in the function the helper serves: while the function holding the site is a private,
-    non-trait function whose callers all sit in one other function, move up; then find the site in that function's body with the helpers of
-    its file spliced in.  -> (function to analyse, block)"""
-    import inline
-    top = g
-    seen = {g.id}
-    while top.rec.get("impl_trait") is None and not top.rec.get("vis_pub") and "{closure" not in top.id:
-        callers = {h.id for h, b2, t2 in facts.callers_of(top.id)}
-        if len(callers) != 1:
-            break
-        nxt = facts.fns[next(iter(callers))]
-        if nxt.id in seen or nxt.file != top.file:
-            break
-        seen.add(nxt.id)
-        top = nxt
-    if top.id == g.id:
-        return g, bb
-    R = inline.inlined(facts, top.id, stop=lambda d: facts.fns[d].rec.get("local") and (facts.fns[d].file != top.file or d not in seen))
-    for b in range(R.n):
-        blk = R.blocks[b]
-        if blk.get("src") == g.id and blk.get("obb") == bb and not blk.get("synthetic"):
-            return R, b
-    return g, bb
+from shared import lift_site  # noqa
 
 
 def run(ctx):
